@@ -106,6 +106,8 @@ def gen_opts(rng):
         "u_phrase": rng.random() < 0.5,
         "u_boost": rng.choice([1.0, 1.0, 2.5]),
         "boosts": rng.random() < 0.3,
+        # dense: every indexed document has >= 1 token in t, u and k, so that minimum field lengths are > 0
+        "dense": rng.random() < 0.35,
     }
 
 
@@ -129,11 +131,18 @@ def make_schema(o):
 
 def gen_doc(rng, key, o, stored_only_ok=True):
     from vf import model
-    if stored_only_ok and rng.random() < 0.07:
+    if stored_only_ok and not o.get("dense") and rng.random() < 0.07:
         # a document without any indexed term (cannot be deleted/updated by term later)
         return {"key": "s%s" % key, "s": {"x": rng.randint(0, 9), "y": [1, u"\xe9"]}}
     d = model.gen_doc(rng, key, maxlen=8, boosts=o["boosts"])
     d["key"] = d["id"]
+    if o.get("dense"):
+        if not d.get("t"):
+            d["t"] = " ".join(model.zipf_choice(rng, model.VOCAB) for _ in range(rng.randint(1, 8)))
+        if not d.get("u"):
+            d["u"] = " ".join(model.zipf_choice(rng, model.VOCAB[:8]) for _ in range(rng.randint(1, 4)))
+        if not d.get("k"):
+            d["k"] = " ".join(rng.choice(model.KVOCAB) for _ in range(rng.randint(1, 2)))
     if rng.random() < 0.4:
         d["b"] = rng.random() < 0.5
     if rng.random() < 0.35:
@@ -178,16 +187,18 @@ def model_apply(live, tx):
     return removed
 
 
-def gen_history(rng, tier, maxdocs=None, ntx=None):
+def gen_history(rng, tier, maxdocs=None, ntx=None, addonly=False, dense=None):
     from vf import model
     o = gen_opts(rng)
+    if dense is not None:
+        o["dense"] = dense
     ntx = ntx or rng.choice([1, 2, 2, 3, 3, 4])
     maxadd = maxdocs or (10 if tier == "quick" else 16)
     live, txs, nextkey, removed = {}, [], 0, 0
     for i in range(ntx):
         ops, touched = [], set()
         idkeys = [k for k, d in live.items() if "id" in d]
-        if i > 0 and idkeys and rng.random() < 0.6:
+        if i > 0 and idkeys and rng.random() < 0.6 and not addonly:
             for key in rng.sample(idkeys, min(len(idkeys), rng.choice([1, 1, 2, 3]))):
                 ops.append(("delete", key))
                 touched.add(key)
@@ -204,10 +215,10 @@ def gen_history(rng, tier, maxdocs=None, ntx=None):
                         touched.add(key)
         body = []
         cands = [k for k in idkeys if k not in touched]
-        if i > 0 and cands and rng.random() < 0.6:
+        if i > 0 and cands and rng.random() < 0.6 and not addonly:
             for key in rng.sample(cands, min(len(cands), rng.choice([1, 1, 2, 4]))):
                 body.append(("update", gen_doc(rng, key, o, stored_only_ok=False)))
-        only_stored = rng.random() < 0.06       # a transaction whose sub-writers never see an indexed term
+        only_stored = rng.random() < 0.06 and not o.get("dense")       # a transaction whose sub-writers never see an indexed term
         for _ in range(rng.randint(0 if (ops or body) else 1, maxadd)):
             kind = "update" if rng.random() < 0.15 and not only_stored else "add"   # update of a fresh key == add
             d = gen_doc(rng, nextkey, o, stored_only_ok=(kind == "add"))
@@ -570,6 +581,7 @@ def observe(ix, probes, with_stats):
     try:
         obs["dump"] = full_dump(r)
         obs["nseg"] = len(r.leaf_readers())
+        obs["empty_segments"] = sum(1 for lr, _ in r.leaf_readers() if lr.doc_count_all() == 0)
         obs["has_deletions"] = r.has_deletions()
         if with_stats:
             obs["stats"] = dump.stats(r)
@@ -777,7 +789,12 @@ def run_config(ctx, rng, h, cfg, probes, with_stats, idx, info):
 
 
 def case_product(ctx, idx, rng, mp):
-    h = gen_history(rng, ctx.tier)
+    if mp:
+        # statistics and scores are comparable only when nothing was removed: make that common for the multi-process writer,
+        # whose sub-writers (possibly without any document) produce the most unusual segment layouts
+        h = gen_history(rng, ctx.tier, addonly=rng.random() < 0.5, dense=rng.random() < 0.7)
+    else:
+        h = gen_history(rng, ctx.tier)
     probes = gen_probes(rng, 8)
     ntx = len(h["txs"])
     no_removal = h["removed"] == 0
@@ -840,6 +857,10 @@ def case_product(ctx, idx, rng, mp):
                 ctx.count("c18.compares.with_scores")
             if same and got["nseg"] > 1:
                 ctx.count("c18.final.multisegment")
+            if got["empty_segments"]:
+                ctx.count("c18.final.with_zero_document_segments")
+                if no_removal:
+                    ctx.count("c18.stats.compares.with_zero_document_segments")
             if same and ref_opt is not None:
                 ok, _ = ctx.guard("c18.optimize", w, optimize_ix, ix)
                 if ok:
